@@ -199,6 +199,7 @@ inductive OriginV
   | value (k : Kind)   -- a non-nil value that is neither a function nor a pointer
   | ptrTo (k : Kind)   -- pointer to a non-function
   | ptrFunc (tr : Tramp)   -- &funcVar
+  | funcVal (tr : Tramp)   -- a plain function value: its own body becomes the placeholder (func.go:119 accepts Kind()==Func)
   deriving DecidableEq, Repr, Inhabited
 
 def checkTrampolineFunc : OriginV → R (Option Tramp)
@@ -206,6 +207,7 @@ def checkTrampolineFunc : OriginV → R (Option Tramp)
   | .value k => if k = .iface then rReflect else rReflect   -- `reflect.Value.Elem()` panics on every other kind
   | .ptrTo _ => rej .trampKind [.str]                       -- errors.New(..) wrapped into the panic string of mocker.go:96
   | .ptrFunc tr => pure (some tr)
+  | .funcVal tr => pure (some tr)
 
 /-! ## patch.go:53–99: patch → patchValue → unsafePatchValue → unsafePatchPtr → replaceFunc; mocker.go:90 applyByFunc -/
 
@@ -249,10 +251,31 @@ def applyByFunc (g : G) (tg : Target) (cb : V) (o : OriginV) (repl : Nat) : G ×
       | (g1, .error e) => (g1, .error (asPanicString e))    -- no guard, nothing applied
       | (g1, .ok _) => (guardApply g1 tg.id, pure ())
 
+/-- builder.go:115 `Func(&fnVar)`: `reflect.ValueOf(p).Pointer()` works for a pointer, and proxy.Func (func.go:27) patches
+    `reflect.Indirect(reflect.ValueOf(funcDef)).Interface()` — the function the variable holds; `Return`/`When` reach
+    `reflect.TypeOf(funcDef).NumOut()` on the pointer type first (when.go:77): a reflect panic -/
+def ptrFuncApply (g : G) (tg : Target) (cb : V) (repl : Nat) : G × R Unit := applyByFunc g tg cb .none repl
+
+/-- `reflect.Value.Pointer()` (patch.go:88 `p.replacementValue.Pointer()`) is defined for these values -/
+def valueHasPointer : V → Bool
+  | .nil => false
+  | .fn _ => true
+  | .expr => true
+  | .val t => t.kind = .chan || t.kind = .func || t.kind = .map || t.kind = .ptr || t.kind = .slice || t.kind = .uptr || t.kind = .str   -- reflect/value.go Pointer (Go 1.23: also String)
+
+/-- mocker.go:462-464: a target whose symbol name ends in "-fm" (a METHOD VALUE such as `obj.M`) is applied BY NAME:
+    mocker.go:77 applyByName → func.go:56 proxy.FuncName → monkey.go:86 PtrTrampoline → patch.go:86 unsafePatchPtr.
+    There is no SignatureEquals on this route: anything with a code pointer is installed on the method. -/
+def fmApply (g : G) (tg : Target) (cb : V) (repl : Nat) : G × R Unit :=
+  if !valueHasPointer cb then (g, rReflect)
+  else match replaceFunc g tg.id tg.fsize repl none with
+    | (g1, .error e) => (g1, .error (asPanicString e))
+    | (g1, .ok _) => (guardApply g1 tg.id, pure ())
+
 /-! ## arg/value.go -/
 
 def nilable (k : Kind) : Bool :=
-  k = .iface || k = .ptr || k = .slice || k = .map || k = .array || k = .chan   -- value.go:61 (sic: Array, not Func)
+  k = .iface || k = .ptr || k = .slice || k = .map || k = .array || k = .chan || k = .func   -- value.go:60-61
 
 def idError : Nat := 10
 
@@ -347,10 +370,9 @@ def checkParams (s : Sig) (args returns : Option (List V)) (isMethod : Bool) : R
   | none => pure ()
   match args with
   | some as =>
-    if isMethod then
-      if as.length + 1 < s.ins.length then rej .argsNotMatch [.argsNotMatch as.length (s.ins.length - 1)]  -- when.go:81
-    else
-      if as.length < s.ins.length then rej .argsNotMatch [.argsNotMatch as.length s.ins.length]          -- when.go:85
+    -- when.go:80-90: parameters without the receiver and, for a variadic function, without the variadic slot
+    let required := s.ins.length - (if isMethod then 1 else 0) - (if s.variadic then 1 else 0)
+    if as.length < required then rej .argsNotMatch [.argsNotMatch as.length required]
   | none => pure ()
 
 /-- the matcher the `When` object holds after `CreateWhen` -/
@@ -429,6 +451,35 @@ def funcCall (g : G) (tg : Target) (pre : Beh) (o : OriginV) (repl : Nat) : Acti
           | .error e => ⟨g1, .error e, g1, b1, b1⟩        -- the rejected call is the `Return`; `When` had succeeded
           | .ok w2 => ⟨g1, pure (), g, pre, if w.hasCur || w2.hasDefault then .stub else .nomatch⟩
 
+/-- `Func(obj.M).<action>` for a method value: `msig` is the method value's type (no receiver), `tg.sig` the method's own type
+    (receiver first).  `Return`/`When` build their stub from `msig` (mocker.go:150) and install it by name as well. -/
+def fmCall (g : G) (tg : Target) (msig : Sig) (repl : Nat) : Action → G × R Unit × Option Beh
+  | .apply cb =>
+    match fmApply g tg cb repl with
+    | (g1, .error e) => (g1, .error e, some .orig)
+    | (g1, .ok _) => (g1, pure (), if cb = .fn tg.sig then some .cb else none)   -- `none`: a callback that does not fit is never called by the probe
+  | .ret vals =>
+    match createWhen msig none (firstReturnValues vals) false with
+    | .error e => (g, .error e, some .orig)
+    | .ok w =>
+      match fmApply g tg (.fn msig) repl with
+      | (g1, .error e) => (g1, .error e, some .orig)
+      | (g1, .ok _) => (g1, pure (), some (if w.hasDefault then .stub else .nomatch))
+  | .when_ args ret =>
+    match createWhen msig args none false with
+    | .error e => (g, .error e, some .orig)
+    | .ok w =>
+      match fmApply g tg (.fn msig) repl with
+      | (g1, .error e) => (g1, .error e, some .orig)
+      | (g1, .ok _) =>
+        let b1 : Beh := if w.hasDefault then .stub else .nomatch
+        match ret with
+        | none => (g1, pure (), some b1)
+        | some vals =>
+          match whenReturn w msig vals with
+          | .error e => (g1, .error e, some b1)
+          | .ok w2 => (g1, pure (), some (if w2.hasDefault then .stub else .nomatch))   -- the stub sees the receiver as first argument: the condition never matches
+
 /-- builder.go:103 `Builder.Func(funcDef)`: `reflect.ValueOf(funcDef).Pointer()` -/
 def hasPointer (k : Kind) : Bool := k = .chan || k = .func || k = .map || k = .ptr || k = .slice || k = .uptr
 
@@ -480,6 +531,10 @@ def exportCall (form : ExportForm) (nameEmpty known asCall : Bool) : R Unit :=
     if asCall then rej .symbolNotFound [.plain]                      -- mocker.go:414 panic(err)
     else rStr .symbolNotFound                                        -- mocker.go:79 panic(fmt.Sprintf(...))
   else pure ()
+
+/-- mocker.go:412/357 `As(aFunc)` on a KNOWN symbol returns a `DefMocker` whose funcDef is a function value of `aFunc`'s
+    type at the symbol's address: `Apply`/`Return` on it are checked against that type like any function (mocker.go:506) -/
+def exportAsApply (g : G) (tg : Target) (cb : V) (repl : Nat) : G × R Unit := applyByFunc g tg cb .none repl
 
 /-! ## interface mocks: iface.go, mocker.go:120 applyByIFaceMethod, internal/proxy/interface.go:21 -/
 
@@ -630,17 +685,37 @@ def toExprV (args : List V) (types : List Ty) (velem : Ty) : Except ConvErr Unit
     | .ok _ => pure ()
     | .error e => .error (.tv e)
 
-/-- when.go:123 `(*When).In` → matcher.go:157 `newContainsMatch` → expr.go:71 `InExpr.Resolve`: one `ToExpr` per group,
+/-- expr.go:71-90 `InExpr.Resolve`, one argument of `In(...)`: a `[]interface{}` is a condition list; on a variadic target a
+    BARE slice (or array) argument at index ≥ len(types)-1 is expanded element-wise (the universe's only slice value is
+    `[]int{7}`: one element of the element type); any other bare argument is one condition -/
+inductive InArg
+  | list (vs : List V)
+  | bare (v : V)
+  deriving Repr, Inhabited
+
+def inParam (s : Sig) (isM : Bool) (idx : Nat) : InArg → R (List V)
+  | .list vs => pure vs
+  | .bare v =>
+    if s.variadic && idx + 1 ≥ (inTypes isM s).length then
+      match v with
+      | .val t => if t.kind = .slice then pure [.val s.velem] else pure [v]   -- expr.go:75-76: only a slice/array is expanded (arrays are not generated)
+      | _ => pure [v]
+    else pure [v]
+
+/-- when.go:123 `(*When).In` → matcher.go:157 `newContainsMatch` → expr.go:71 `InExpr.Resolve`: one `ToExpr` per argument,
     with the target's variadic flag -/
-def wIn (s : Sig) (isM : Bool) (w : WS) : List (List V × Bool) → Bool → R WS
-  | [], hit => pure { w with hasCur := true, curHit := hit }
-  | (g, h) :: rest, hit =>
-    match (if s.variadic then toExprV g (inTypes isM s) s.velem else toExpr g (inTypes isM s)) with
-    | .ok _ => wIn s isM w rest (hit || h)
-    | .error .count => rStr .inCount
-    | .error (.tv .typeMismatch) => rStr .inType
-    | .error (.tv .reflectPanic) => rReflect
-    | .error (.tv .ictxPanic) => rStr .ictxReturn
+def wIn (s : Sig) (isM : Bool) (w : WS) : List (InArg × Bool) → Nat → Bool → R WS
+  | [], _, hit => pure { w with hasCur := true, curHit := hit }
+  | (a, h) :: rest, idx, hit =>
+    match inParam s isM idx a with
+    | .error e => .error e
+    | .ok g =>
+      match (if s.variadic then toExprV g (inTypes isM s) s.velem else toExpr g (inTypes isM s)) with
+      | .ok _ => wIn s isM w rest (idx + 1) (hit || h)
+      | .error .count => rStr .inCount
+      | .error (.tv .typeMismatch) => rStr .inType
+      | .error (.tv .reflectPanic) => rReflect
+      | .error (.tv .ictxPanic) => rStr .ictxReturn
 
 /-- when.go:168 `(*When).Matches`: each pair becomes a matcher that is appended at once — a later bad pair panics after
     the earlier ones were installed (the returned `WS` is what is left) -/
@@ -660,11 +735,12 @@ inductive Step
   | when_ (args : Option (List V)) (hit : Bool)
   | returns (groups : List (List V))
   | andReturn (vals : Option (List V))
-  | in_ (groups : List (List V × Bool))
+  | in_ (groups : List (InArg × Bool))
   | matchPairs (pairs : List (List V × Bool × List V))
   | again          -- look the mocker up again through the builder (same cached mocker)
   | lookup (name : String) (found : Bool)   -- `Struct(x).Method(name)` / `Interface(&i).Method(name)` for another name
   | asFn (fn : Sig)                          -- `.As(fn)` (interface mockers): only remembers the function
+  | holder (hasMethod : Bool)                -- from now on `Interface(&structHoldingTheVariable).Method(name)[.As(fn)]`
   deriving Repr, Inhabited
 
 /-- what the entry of the target currently jumps to -/
@@ -691,11 +767,12 @@ def whenStep (s : Sig) (isM : Bool) (w : WS) : Step → WS × R Unit
   | .when_ args hit => match wWhen s isM w args hit with | .ok w1 => (w1, pure ()) | .error e => (w, .error e)
   | .returns gs => wReturns s w gs 0
   | .andReturn vals => match wAndReturn s w vals with | .ok w1 => (w1, pure ()) | .error e => (w, .error e)
-  | .in_ gs => match wIn s isM w gs false with | .ok w1 => (w1, pure ()) | .error e => (w, .error e)
+  | .in_ gs => match wIn s isM w gs 0 false with | .ok w1 => (w1, pure ()) | .error e => (w, .error e)
   | (.matchPairs ps) => wMatches s isM w ps
   | .again => (w, pure ())
   | .lookup _ _ => (w, pure ())
   | .asFn _ => (w, pure ())
+  | .holder _ => (w, pure ())
   | .apply _ => (w, pure ())     -- not a `*When` call; handled by `seqStep`
 
 /-- cache.go:44/139 + mocker.go:199 / iface.go:67: looking a method mocker up by name validates the name BEFORE the new
@@ -709,6 +786,7 @@ def lookupCheck (name : String) (found : Bool) : R Unit :=
 def seqStep (tg : Target) (isM : Bool) (repl : Nat) (ms : MS) : Step → MS × R Unit
   | .again => (ms, pure ())
   | .asFn _ => (ms, pure ())
+  | .holder _ => (ms, pure ())
   | .lookup name found => (ms, lookupCheck name found)
   | .apply cb =>
     match applyByFunc ms.g tg cb .none repl with
@@ -765,16 +843,34 @@ structure IS where
   when : Option WS
   imp : ImpK
   fn : Sig             -- m.funcDef, set by As(..)
+  /-- the test now configures through a pointer to the STRUCT whose first field is the variable (same address, other type):
+      builder.go:71 keys the cache by type string AND address, so this is a different, fresh mocker each time it fails -/
+  via : Bool := false
   deriving Inhabited
 
-def ifaceSeqStep (m : Sig) (is_ : IS) : Step → IS × R Unit
+/-- a configuration call made through `Interface(&holder)`: `checkMethod` saw the struct's (promoted) method, the call
+    itself reaches proxy.Interface with a pointer to a non-interface (interface.go:28) after the usual value checks -/
+def holderStep (m : Sig) (fn : Sig) : Step → R Unit
+  | .apply cb => applyIface (.ptrTo .strct true) m cb
+  | .ret vals => do let _ ← createWS fn none true (firstReturnValues vals) true; applyIface (.ptrTo .strct true) m (.fn fn)
+  | .when_ args hit => do let _ ← createWS fn args hit none true; applyIface (.ptrTo .strct true) m (.fn fn)
+  | .returns gs => do
+      let w0 ← createWS fn none true none true
+      match wReturns fn w0 gs 0 with
+      | (_, .error e) => .error e
+      | (_, .ok _) => applyIface (.ptrTo .strct true) m (.fn fn)
+  | _ => pure ()
+
+/-- a configuration call on the interface variable itself (`Interface(&i)`) -/
+def ifaceMainStep (m : Sig) (is_ : IS) : Step → IS × R Unit
   | .again => (is_, pure ())
+  | .holder _ => (is_, pure ())
   | .asFn f => ({ is_ with fn := f }, pure ())
   | .lookup name found => (is_, lookupCheck name found)
   | .apply cb =>
     match applyIface .ptrIface m cb with
     | .error e => (is_, .error e)
-    | .ok _ => (⟨true, none, .cb, is_.fn⟩, pure ())
+    | .ok _ => (⟨true, none, .cb, is_.fn, is_.via⟩, pure ())
   | st =>
     let fn := is_.fn
     match is_.when with
@@ -794,7 +890,19 @@ def ifaceSeqStep (m : Sig) (is_ : IS) : Step → IS × R Unit
       | .ok w1 =>
         match applyIface .ptrIface m (.fn fn) with
         | .error e => (is_, .error e)
-        | .ok _ => (⟨true, some w1, .whenFn, fn⟩, pure ())
+        | .ok _ => (⟨true, some w1, .whenFn, fn, is_.via⟩, pure ())
+
+def isConfigStep : Step → Bool
+  | .again | .holder _ | .asFn _ | .lookup _ _ => false
+  | _ => true
+
+def ifaceSeqStep (m : Sig) (is_ : IS) (st : Step) : IS × R Unit :=
+  match st with
+  | .holder hasMethod =>
+    if hasMethod then ({ is_ with via := true }, pure ()) else (is_, rStr .methodNotFound)   -- iface.go:82 on the struct type
+  | st =>
+    if is_.via && isConfigStep st then (is_, holderStep m is_.fn st)     -- through Interface(&holder): never installs anything
+    else ifaceMainStep m is_ st
 
 def runIfaceSeq (m : Sig) : IS → List Step → Nat → IS × IS × R Unit × Nat
   | s, [], i => (s, s, pure (), i)
@@ -835,6 +943,19 @@ def erroCause : GoErr → Option GoErr
 def erroWalk : GoErr → ErrT
   | .leaf t => t
   | .wrap t c => if t = .traceable then erroWalk c else t
+
+/-- erro/traceable.go:26 `CauseBy(err, target)`:
+    `for c := err; c != nil; c = Cause(c) { if t, ok := c.(Traceable); ok && t == target { return true } }; return false`.
+    The pointer comparison `t == target` is rendered by the node's depth in the value: `causeByDepth e d k` = does the loop,
+    standing at node `e` of depth `d`, find the node of depth `k`. -/
+def causeByDepth : GoErr → Nat → Nat → Bool
+  | .leaf t, d, k => t = .traceable && d = k
+  | .wrap t c, d, k => if t = .traceable then d = k || causeByDepth c (d + 1) k else false
+
+/-- number of leading `*TraceableError` nodes of a listed chain: the nodes `CauseBy` can identify -/
+def leadingTraceable : List ErrT → Nat
+  | .traceable :: rest => leadingTraceable rest + 1
+  | _ => 0
 
 /-- does a node of this type expose its cause to the probe's chain listing: through a `Cause() error` method
     (`*TraceableError`, `*IllegalParam`) or through `errors.Unwrap` (`*fmt.wrapError`, tagged `plain`) -/
